@@ -48,7 +48,7 @@ def initial_cases(tier, seed):
         cases.append({"kind": "expnt", "level": level})
     for cls, sl in itertools.product(("C", "D", "I", "G"), ("npa", "nst", "np", "ns")):
         cases.append({"kind": "normclass", "cls": cls, "sl": sl})
-    for fam, sl, rm in itertools.product(["VJ", "VI", "VIJ", "VK", "VIJ2", "VI0", "VJ2", "VIx", "SDMX", "SDMXG", "SDMX1", "SDMXG1", "SDMXFull", "SADM"],
+    for fam, sl, rm in itertools.product(["VJ", "VI", "VIJ", "VK", "VIJ2", "VI0", "VJ2", "VIx", "SDMX", "SDMXG", "SDMX1", "SDMXG1", "SDMXFull", "SADM", "SDMXG1-all"],
                                          ["npa", "nst", "np", "ns"], ["one", "expnt"]):
         if rm == "expnt" and not fam.startswith("V"):
             continue
@@ -59,7 +59,7 @@ def initial_cases(tier, seed):
             continue
         for lam in lams:
             cases.append({"kind": "nldf", "mol": mol, "fam": fam, "level": level, "rho_mult": rm, "plan": plan, "lam": lam})
-    for mol, cls in itertools.product(["He", "HF"], ["SDMX", "SDMXG1", "SDMXFull"]):
+    for mol, cls in itertools.product(["He", "HF"], ["SDMX", "SDMXG1", "SDMXFull", "SDMXG1-all"]):
         for lam in lams:
             cases.append({"kind": "sdmx", "mol": mol, "cls": cls, "lam": lam})
     for fam in ("SL", "VJ", "VIJ", "VK", "SDMX1"):
